@@ -1,0 +1,81 @@
+// Copyright 2026. Contracts for deductive verification (gowp).
+// This file contains only comments; it is compiled only with -tags verif
+// and adds nothing to the package.
+
+//go:build verif
+
+package stats
+
+// ---------------------------------------------------------------------
+// StreamStats (C13): data structure against an abstract view.
+// View of s: n = Count, S = Total, Q = Count*meanOfSquares (sum of
+// squares), lo = Min, hi = Max.
+
+//@ spec ssQ(s StreamStats) float64 = s.Count * s.meanOfSquares
+//@ spec wfA(s StreamStats) bool =
+//@     (s.Count == 0 ==> s.Total == 0 && s.mean == 0 && s.meanOfSquares == 0 && s.vM2 == 0) &&
+//@     (s.Count > 0 ==> s.Min <= s.Max && s.Count * s.mean == s.Total)
+//@ spec wfM2(s StreamStats) bool =
+//@     s.Count > 0 ==> s.vM2 == ssQ(s) - s.Total * s.Total / s.Count
+//@ spec wfSS(s StreamStats) bool = wfA(s) && wfM2(s)
+
+//@ func StreamStats.Add
+//@   model real
+//@   requires s != nil && wfSS(*s) && isfinite(x)
+//@   ensures [count] s.Count == old(s.Count) + 1
+//@   ensures [total] s.Total == old(s.Total) + x
+//@   ensures [sumsq] ssQ(*s) == old(ssQ(*s)) + x*x
+//@   ensures [min-first] old(s.Count) == 0 ==> s.Min == x && s.Max == x
+//@   ensures [min] old(s.Count) > 0 ==> s.Min == min(old(s.Min), x)
+//@   ensures [max] old(s.Count) > 0 ==> s.Max == max(old(s.Max), x)
+//@   ensures [wf] wfSS(*s)
+//@   assigns *s
+
+//@ func StreamStats.Combine
+//@   model real
+//@   requires s != nil && o != nil && s != o && wfSS(*s) && wfSS(*o)
+//@   ensures [count] s.Count == old(s.Count) + o.Count
+//@   ensures [total] s.Total == old(s.Total) + o.Total
+//@   ensures [sumsq] ssQ(*s) == old(ssQ(*s)) + ssQ(*o)
+//@   ensures [min-empty-o] o.Count == 0 && old(s.Count) > 0 ==> s.Min == old(s.Min)
+//@   ensures [max-empty-o] o.Count == 0 && old(s.Count) > 0 ==> s.Max == old(s.Max)
+//@   ensures [min-empty-s] old(s.Count) == 0 && o.Count > 0 ==> s.Min == o.Min
+//@   ensures [max-empty-s] old(s.Count) == 0 && o.Count > 0 ==> s.Max == o.Max
+//@   ensures [min-both] old(s.Count) > 0 && o.Count > 0 ==> s.Min == min(old(s.Min), o.Min)
+//@   ensures [max-both] old(s.Count) > 0 && o.Count > 0 ==> s.Max == max(old(s.Max), o.Max)
+//@   ensures [wf] wfA(*s)
+//@   ensures [m2-empty-o] o.Count == 0 ==> wfM2(*s)
+//@   ensures [m2-empty-s] old(s.Count) == 0 ==> wfM2(*s)
+//@   ensures [m2-both] old(s.Count) > 0 && o.Count > 0 ==> wfM2(*s)
+//@   ensures [o-unchanged] *o == old(*o)
+//@   assigns *s
+
+//@ func StreamStats.Weight
+//@   model real
+//@   requires s != nil
+//@   ensures [def] result == s.Count
+//@   assigns nothing
+
+//@ func StreamStats.Mean
+//@   model real
+//@   requires s != nil && wfSS(*s) && s.Count > 0
+//@   ensures [def] result == s.Total / s.Count
+//@   assigns nothing
+
+//@ func StreamStats.Variance
+//@   model real
+//@   requires s != nil && wfSS(*s) && s.Count >= 2
+//@   ensures [def] result == (ssQ(*s) - s.Total*s.Total/s.Count) / (s.Count - 1)
+//@   assigns nothing
+
+//@ func StreamStats.StdDev
+//@   model real
+//@   requires s != nil && wfSS(*s) && s.Count >= 2
+//@   ensures [def] result == sqrt((ssQ(*s) - s.Total*s.Total/s.Count) / (s.Count - 1))
+//@   assigns nothing
+
+//@ func StreamStats.RMS
+//@   model real
+//@   requires s != nil && wfSS(*s) && s.Count > 0
+//@   ensures [def] result == sqrt(ssQ(*s) / s.Count)
+//@   assigns nothing
